@@ -315,3 +315,32 @@ def spec_classes(fs):
             labels.add('channel_absent_in_some_segment')
             break
     return labels
+
+
+@st.composite
+def twin_long_file(draw, min_segments=102, max_segments=140, types=('i16', 'f64', 'u8', 'i32')):
+    """Many short segments in which 2-3 channels have IDENTICAL per-segment value counts for a long prefix (>= 100
+    segments) and diverge only in the tail: their cumulative-offset tables agree in the first hundred entries."""
+    nch = draw(st.integers(2, 3))
+    chans = [(make_path('g', 'c%d' % i), draw(st.sampled_from(list(types))), i) for i in range(nch)]
+    nseg = draw(st.integers(min_segments, max_segments))
+    tail = draw(st.integers(1, nseg - 100))
+    counters = {}
+    segs = []
+    for si in range(nseg):
+        common = draw(st.integers(1, 2))
+        entries, active, data = [], [], {}
+        nchunks = draw(st.integers(1, 2))
+        for (p, t, tag) in chans:
+            n = common if si < nseg - tail else draw(st.integers(1, 3))
+            chunks = []
+            for _k in range(nchunks):
+                cnt = counters.get(p, 0)
+                chunks.append(b''.join(unique_value(t, tag, cnt + i) for i in range(n)))
+                counters[p] = cnt + n
+            entries.append({'path': p, 'hdr': 'full', 'type': t, 'n': n})
+            active.append([p, t, n])
+            data[p] = chunks
+        segs.append({'be': False, 'interleaved': False, 'version': 4713, 'meta': True, 'newlist': True,
+                     'entries': entries, 'active': active, 'nchunks': nchunks, 'data': data})
+    return {'segments': segs}
